@@ -4,7 +4,14 @@
    order, so harness/props/llp_common.py:coq_case serves both).
    [Ctors]: constructor outcome only, for a batch of grammars over a common
    terminal set (used by the exhaustive small-grammar sweep).
-   Both also evaluate the hypotheses of the C03 theorems ([part1_okb]) on the
+   [Session]: a HISTORY of constructor calls made one after another in one
+   process (the harness passes the same productions object mutated in place,
+   equal copies, objects sharing their lists, ...), each followed by the parses
+   of its inputs, and, after the last call, the parses of every accepted parser
+   once more.  The model has no state between calls: the observation of call k
+   is [call_sx] of the k-th grammar alone, and the late parses repeat the early
+   ones (a parser is a value).
+   All also evaluate the hypotheses of the C03 theorems ([part1_okb]) on the
    factorized grammar; the harness expects them to hold on every case.
    No proofs in this file. *)
 From Coq Require Import ZArith List Bool.
@@ -28,20 +35,39 @@ Definition hyps_ok (ug : list (sym * list (list sym))) (terminals : list sym) (s
   | Err _ => true
   end.
 
+(* one constructor call + the parses made with the parser it returned *)
+Notation call := (list (sym * list (list sym)) * bool * sym * list (list (sym * list Z)))%type.
+
+Definition call_sx (terminals : list sym) (fuel : nat) (c : call) : sx :=
+  let '(ug, smart, start, inputs) := c in
+  match build ug terminals smart start with
+  | Err e => SL [SZ 1; SZ (err_code e); sx_bool (hyps_ok ug terminals smart start)]
+  | Ok p =>
+      SL [SZ 0; sx_bool (is_ambiguous (p_tables p)); sx_bool (hyps_ok ug terminals smart start);
+          SL (map (fun inp => sx_res sx_tree (p_parse p fuel (mk_toks inp))) inputs)]
+  end.
+
+(* the parses of the same inputs with the same parser after all the other calls of the session *)
+Definition late_sx (terminals : list sym) (fuel : nat) (c : call) : sx :=
+  let '(ug, smart, start, inputs) := c in
+  match build ug terminals smart start with
+  | Err _ => SL []
+  | Ok p => SL (map (fun inp => sx_res sx_tree (p_parse p fuel (mk_toks inp))) inputs)
+  end.
+
+(* constructor outcomes of a session: call k is judged on its own grammar *)
+Definition session_outcomes (terminals : list sym) (calls : list call) : list (res unit) :=
+  map (fun c : call => let '(ug, smart, start, _) := c in ctor_outcome ug terminals smart start) calls.
+
 Inductive case :=
 | Grammar (ug : list (sym * list (list sym))) (terminals : list sym) (smart : bool) (start : sym)
           (fuel : nat) (inputs : list (list (sym * list Z)))
-| Ctors (terminals : list sym) (gs : list (list (sym * list (list sym)) * bool * sym)).
+| Ctors (terminals : list sym) (gs : list (list (sym * list (list sym)) * bool * sym))
+| Session (terminals : list sym) (fuel : nat) (calls : list call).
 
 Definition run (c : case) : sx :=
   match c with
-  | Grammar ug terminals smart start fuel inputs =>
-      match build ug terminals smart start with
-      | Err e => SL [SZ 1; SZ (err_code e); sx_bool (hyps_ok ug terminals smart start)]
-      | Ok p =>
-          SL [SZ 0; sx_bool (is_ambiguous (p_tables p)); sx_bool (hyps_ok ug terminals smart start);
-              SL (map (fun inp => sx_res sx_tree (p_parse p fuel (mk_toks inp))) inputs)]
-      end
+  | Grammar ug terminals smart start fuel inputs => call_sx terminals fuel (ug, smart, start, inputs)
   | Ctors terminals gs =>
       SL (map (fun '(ug, smart, start) =>
                  if hyps_ok ug terminals smart start then
@@ -50,4 +76,6 @@ Definition run (c : case) : sx :=
                    | Err e => SZ (err_code e)
                    end
                  else SZ 99) gs)
+  | Session terminals fuel calls =>
+      SL [SL (map (call_sx terminals fuel) calls); SL (map (late_sx terminals fuel) calls)]
   end.
